@@ -19,6 +19,7 @@ fn main() -> ExitCode {
     let r = match args[1].as_str() {
         "tokens" => comp::tokens(&opts),
         "peers" => comp::peers(&opts),
+        "table" => comp::table(&opts),
         other => {
             eprintln!("unknown sub-command {other}");
             return ExitCode::from(2);
